@@ -608,6 +608,78 @@ def evaluate_shards(ctx: Ctx, specs):
             shutil.rmtree(d, ignore_errors=True)
 
 
+def evaluate_cli_summary(ctx: Ctx, specs):
+    """the summary through the real command line (`python -m outrank --task ranking_summary …`, fresh process) on an output folder
+    that an earlier ranking run left behind – with its `arguments.json` naming ANOTHER label and heuristic: the files written are
+    the summary of the rank table under the options given on THIS command line (explicit options, also when they equal the
+    defaults)."""
+    import json
+    import random
+    import subprocess
+    import sys
+
+    from vp_common import REPO
+    for spec in specs:
+        r = random.Random(f'cli:{spec["seed"]}')
+        feats = r.sample(['f1', 'f2', 'f3', 'zone', 'age'], spec['k'])
+        label, heur = spec['label'], spec['heuristic']
+        rows = []
+        for f in feats:
+            for _ in range(r.randint(1, 3)):
+                sc = r.randint(-8, 40) / 8
+                rows += [[f, label, sc], [label, f, sc]]
+        for a in feats:
+            for b in feats:
+                rows.append([a, b, r.randint(0, 16) / 8])
+        case = {'label': label, 'label_name': label, 'heuristic': heur, 'io': 1, 'rows': rows, 'inter': {}, 'exact': True}
+        med, final, _ = spec_tables(case)
+        ctx.evaluations += 1
+        ctx.count('cli-ranking_summary-on-a-folder-with-arguments.json')
+        d = tempfile.mkdtemp(prefix='c18cli_')
+        try:
+            import pandas as pd
+            pd.DataFrame(rows, columns=['FeatureA', 'FeatureB', 'Score']).to_csv(os.path.join(d, 'pairwise_ranks.tsv'), sep='\t', index=False)
+            stale = {'task': 'ranking', 'label_column': feats[0], 'heuristic': 'surrogate-SGD' if is_mi(heur) else 'MI-numba-randomized',
+                     'interaction_order': 1, 'output_folder': d, 'data_path': 'x', 'tldr': 'False'}
+            with open(os.path.join(d, 'arguments.json'), 'w') as fh:
+                json.dump(stale, fh)
+            env = dict(os.environ, PYTHONPATH=REPO)
+            p = subprocess.run([sys.executable, '-m', 'outrank', '--task', 'ranking_summary', '--data_path', 'x', '--output_folder', d,
+                                '--label_column', label, '--heuristic', heur, '--tldr', 'False'], cwd=d, env=env,
+                               stdout=subprocess.PIPE, stderr=subprocess.STDOUT, timeout=600)
+            show = (f'`--task ranking_summary --label_column {label} --heuristic {heur}` on a folder whose arguments.json (from an earlier ranking run) '
+                    f'names label {stale["label_column"]!r} and heuristic {stale["heuristic"]!r}; rank table: {len(rows)} rows over {feats} and {label!r}')
+            path = os.path.join(d, 'feature_singles.tsv')
+            if not os.path.exists(path):
+                ctx.oracle_fail('cli-summary-missing', f'{show}: no feature_singles.tsv was written (exit {p.returncode}): {p.stdout.decode("utf-8", "replace")[-300:]}',
+                                {'cli_summary': spec})
+                continue
+            with open(path, newline='', encoding='utf-8') as fh:
+                recs = list(csv.reader(fh, delimiter='\t'))
+            header, body = recs[0], [x for x in recs[1:] if len(x) == 2]
+            got = {x[0]: Fraction(float(x[1])) for x in body}
+            want = final if final is not None else med
+            bad = None
+            if header != ['Feature', f'Score {heur}']:
+                bad = f'header {header}, expected ["Feature", "Score {heur}"]'
+            elif set(got) != set(want):
+                bad = f'features listed {sorted(got)}, the features scored against {label!r} are {sorted(want)}'
+            else:
+                for f in want:
+                    if not close(got[f], want[f], Fraction(1, 10 ** 9)):
+                        bad = f'feature {f!r} has {float(got[f])!r}, the {"normalised " if final is not None and is_mi(heur) else ""}median of its label scores is {float(want[f])!r}'
+                        break
+            if bad:
+                ctx.oracle_fail('cli-summary', f'{show}: {bad}', {'cli_summary': spec})
+        finally:
+            shutil.rmtree(d, ignore_errors=True)
+
+
+def cli_summary_specs(rng, n):
+    return [{'seed': rng.randrange(10 ** 9), 'k': rng.choice([2, 3, 4]), 'label': rng.choice(['label', 'label', 'y']),
+             'heuristic': rng.choice(['MI-numba-randomized', 'MI-numba-randomized', 'AMI', 'surrogate-SGD'])} for _ in range(n)]
+
+
 def shard_specs(rng, n):
     return [{'seed': rng.randrange(10 ** 9), 'k': rng.choice([2, 3, 4, 5]), 'shards': rng.choice([1, 2, 2, 3]), 'heuristic': rng.choice(['MI-numba-randomized', 'AMI']),
              'index': rng.choice(['kept', 'kept', 'fresh'])} for _ in range(n)]
@@ -618,6 +690,7 @@ def run(ctx: Ctx):
     cases = corpus() + [gen_case(ctx.rng, ctx.thorough()) for _ in range(n)]
     evaluate(ctx, cases)
     evaluate_shards(ctx, shard_specs(ctx.rng, 1500 if ctx.thorough() else 200))
+    evaluate_cli_summary(ctx, cli_summary_specs(ctx.rng, 12 if ctx.thorough() else 3))
     # end-to-end summary family (drawn last, so that the cases above do not depend on it)
     corr_E2E.evaluate_summary(ctx, corr_E2E.corpus_summary() + corr_E2E.gen_summary_cases(ctx.rng, ctx.thorough()))
 
@@ -629,6 +702,7 @@ def search(ctx: Ctx):
     cases = [gen_case(sub.rng, True, family=sub.rng.choice(['wf', 'wf', 'retyped', 'floats'])) for _ in range(4000)]
     evaluate(sub, cases, oracle_only=True)
     evaluate_shards(sub, shard_specs(sub.rng, 800))
+    evaluate_cli_summary(sub, cli_summary_specs(sub.rng, 4))
     corr_E2E.evaluate_summary(sub, corr_E2E.corpus_summary() + corr_E2E.gen_summary_cases(sub.rng, True)[:80], oracle_only=True)
     return sub.oracle_failures
 
@@ -637,6 +711,9 @@ def replay(ctx: Ctx, payload):
     c = payload['case']
     if isinstance(c, dict) and c.get('e2e'):
         corr_E2E.evaluate_summary(ctx, [c])
+        return
+    if isinstance(c, dict) and 'cli_summary' in c:
+        evaluate_cli_summary(ctx, [c['cli_summary']])
         return
     if isinstance(c, dict) and 'shards_case' in c:
         evaluate_shards(ctx, [c['shards_case']])
